@@ -134,9 +134,11 @@ STRINGS = [
     "http://ex.org/a/x",
     "]]>",
     "é",
+    "inf",   # look like special float spellings / XSD spellings of them
+    "NaN",
 ]
 INTS = [0, 1, -1, 42, 2**31, -(2**31) - 1, 2**63, 2**70 + 1, -(10**30)]
-FLOATS = [0.0, 1.0, -1.5, 0.1, 1e100, 2.0**70, 1e-7, 3.141592653589793, -0.0]
+FLOATS = [0.0, 1.0, -1.5, 0.1, 1e100, 2.0**70, 1e-7, 3.141592653589793, -0.0, float("inf"), float("-inf")]
 DATETIMES = [
     "2012-12-03T21:08:16",
     "2012-12-03T21:08:16.686000",
@@ -147,8 +149,9 @@ DATETIMES = [
     "2000-02-29T12:00:00+00:00",
     "1970-01-01T00:00:00",
 ]
-LANGS = ["en", "fr", "en-GB"]
-VALUE_URIS = ["http://ex.org/a/x", "urn:x:thing", "http://other.org/ns#t", "mailto:a@b.c"]
+LANGS = ["en", "fr", "en-GB", "es-419", "de-CH-1901"]
+VALUE_URIS = ["http://ex.org/a/x", "urn:x:thing", "http://other.org/ns#t", "mailto:a@b.c",
+              "http://www.w3.org/ns/prov#", "HTTP://EX.org/A?"]  # empty fragment / empty query, upper-case scheme
 # foreign (not natively supported) datatypes, as (uri, local)
 FOREIGN_DATATYPES = [
     (XSD_URI, "integer"),
@@ -181,6 +184,9 @@ NATIVE_LITERALS = [
     ("dateTime", "2012-12-03T21:08:16", ["dt", "2012-12-03T21:08:16"]),
     ("dateTime", "2012-12-03T21:08:16+01:00", ["dt", "2012-12-03T21:08:16+01:00"]),
 ]
+
+# valid xsd:dateTime lexical forms that have no Python datetime: they stay typed literals
+UNPYTHONABLE_DATETIMES = ["12000-01-01T00:00:00", "2020-12-31T24:00:00"]
 
 PROV_TYPES = ["Revision", "Quotation", "PrimarySource", "Person", "Organization",
               "SoftwareAgent", "Plan", "Collection", "EmptyCollection", "Bundle",
